@@ -5,6 +5,8 @@ VERIF=$(cd "$(dirname "$0")/.." && pwd)
 REPO=${RIMU_REPO:-/repo}
 cd $REPO && git apply $VERIF/seeded/$name/patch.diff || exit 2
 cd $VERIF
+# evidence of a run on a changed tree does not belong in evidence/ (committed: describes the unchanged tree)
+export VERIF_EVIDENCE_DIR=$VERIF/scratch/seeded-evidence; mkdir -p $VERIF_EVIDENCE_DIR
 for pid in "$@"; do
   out=$(./check $pid --tier quick 2>&1); rc=$?
   out=$(echo "$out" | grep -v NOT-CHECKED)
